@@ -141,6 +141,9 @@ func (c02) Gen(seed uint64, run int, tier string) *Plan {
 					}
 				}
 				p.Actions = append(p.Actions, a)
+				if r.Intn(14) == 0 && len(a.L) == 0 {
+					p.Actions = append(p.Actions, Action{Kind: "task", B: d, T: "again", S: a.S})
+				}
 			}
 		}
 		for d := 0; d < nd; d++ {
@@ -157,6 +160,7 @@ type c02Task struct {
 	di  int
 	op  int
 	got int
+	again int // times the same package was sent again under its TaskID (a repeated package)
 }
 
 type c02State struct {
@@ -344,6 +348,9 @@ func (c02) Exec(p *Plan, dir string) *Result {
 			}
 		}
 		for _, t := range st.all {
+			if t.got > 0 && t.got < 1+t.again && st.foreign[t.di] == 0 {
+				res.Violate("C02", "not-delivered", "repeated-package:"+t.tc.Entry.Name, fmt.Sprintf("agent %s: %q was sent %d times under TaskID %s, the agent was handed it %d time(s)", w.Demons[t.di].NameID(), t.tc.Line, 1+t.again, t.tid, t.got), w.Sim)
+			}
 			if t.got == 0 && st.foreign[t.di] == 0 {
 				res.Violate("C02", "not-delivered", t.tc.Entry.Name, fmt.Sprintf("agent %s: %q (TaskID %s, class %s) was accepted from the operator but never handed to the agent", w.Demons[t.di].NameID(), t.tc.Line, t.tid, t.tc.Class), w.Sim)
 			}
@@ -392,6 +399,29 @@ func (st *c02State) requestID(g *simrt.Rand) (uint32, string) {
 // issue sends the action's command to its target agent(s).
 func (st *c02State) issue(a Action, idx int, settle bool) {
 	w := st.w
+	if a.T == "again" {
+		// the client sends the package of this agent's latest task once more, TaskID and all, while
+		// the first copy may still be waiting: the agent is handed it again, under the same request id
+		for k := len(st.all) - 1; k >= 0; k-- {
+			if it := st.all[k]; it.di == a.B%len(w.Demons) {
+				mem := false
+				for _, rd := range it.tc.Reads {
+					mem = mem || rd.Kind == world.RdMemFile
+				}
+				if mem || it.tc.Cmd == world.CmdCheckin {
+					return
+				}
+				it.again++
+				w.Operators[it.op].Task(w.Demons[it.di].NameID(), it.tid, int(it.tc.Cmd), it.tc.Line, it.tc.Info)
+				if settle {
+					w.Sim.Settle()
+				}
+				st.res.Probe("repeated-task-packages")
+				return
+			}
+		}
+		return
+	}
 	e := world.TaskEntryByName(a.S)
 	if e == nil {
 		return
